@@ -320,8 +320,14 @@ func c17Digest(r *Report) {
 		if !pr.verify {
 			content = "$2"
 		}
-		for _, x := range P.factsOf(pr.msg).exits {
-			o := r.ob("R17.4", shortFn(pr.msg)+":exit:"+exitID(P, pr.msg, x), pr.msg, x.ret, "every exit is the hashing helper's error or the digest method's unchanged verdict on the hash of the content under the receiver's algorithm")
+		dig := pr.dig
+		dx := P.deepExits(pr.msg, func(h *ssa.Function) bool { return h != dig && h.Signature.Recv() == nil })
+		for xi, x := range dx {
+			id := exitID(P, pr.msg, x)
+			if len(dx) != len(P.factsOf(pr.msg).exits) {
+				id += fmt.Sprintf("#%d", xi)
+			}
+			o := r.ob("R17.4", shortFn(pr.msg)+":exit:"+id, pr.msg, x.ret, "every exit is the hashing helper's error or the digest method's unchanged verdict on the hash of the content under the receiver's algorithm")
 			et := x.results[len(x.results)-1]
 			c := delegCall(et)
 			switch {
